@@ -117,6 +117,7 @@ def agree(dadi, fa, fb, pts, cost, budget, ndim):
     e1 = rel(fa(pts), fb(pts))
     if e1 <= TIGHT: return 'tight', [e1]
     spent = 0.0
+    if DEADLINE[0] is not None and time.time() > DEADLINE[0]: return 'unresolved', [e1]
     if cost * 4 > budget: return 'unresolved', [e1]
     with TF(dadi, 4):
         e2 = rel(fa(pts), fb(pts))
@@ -137,6 +138,7 @@ def agree(dadi, fa, fb, pts, cost, budget, ndim):
     return 'different', [e1, e2, e3, e4]
 
 REFINE_BUDGET = [20.0]
+DEADLINE = [None]          # wall-clock time after which no refinement is started any more
 
 def check_pair(chk, dadi, key, what, inp, fa, fb, pts, ndim, cost=0.0):
     """the two spectra must agree; the implementation side is `fa`.  Returns the verdict."""
@@ -665,6 +667,7 @@ def l3_graph_vs_program(chk, ctx, rng, n, want_ancient, budget):
     done = 0; tries = 0
     while done < n and tries < 8 * n:
         tries += 1
+        if DEADLINE[0] is not None and time.time() > DEADLINE[0] + 30: chk.stat('stopped:deadline'); break
         force = None
         if want_ancient and done % 4 == 1: force = ['split', 'split', 'branch']      # reach 4-5 axes with a frozen branch
         h = S.History(rng, want_ancient=want_ancient, force=force, small_Ne=want_ancient)
@@ -696,6 +699,7 @@ def l3_metamorphic(chk, ctx, rng, n, budget):
     done = 0; tries = 0
     while done < n and tries < 8 * n:
         tries += 1
+        if DEADLINE[0] is not None and time.time() > DEADLINE[0] + 30: chk.stat('stopped:deadline'); break
         h = S.History(rng, want_ancient=(rng.random() < 0.25), max_live=4, small_Ne=True)
         ops, _ = h.program(frozen_nu=1.0 / h.Ne)
         pts, dmax = pick_pts(ops)
@@ -711,9 +715,10 @@ def l3_metamorphic(chk, ctx, rng, n, budget):
         done += 1
         anc = any(t > 0 for t in st)
         common_ = dict(graph=gd, samples=h.samples, ns=ns, pts=pts, ndim=dmax, cost=2 * cost, describe=h.describe(), Ne=h.Ne)
-        c = float(rng.choice([0.5, 3.0, 10.0, 0.37, 1000.0]))
+        # the frozen branch of an ancient sample keeps size 1 in every unit system: a large factor makes 1/Ne (and the time step) tiny
+        c = float(rng.choice([0.5, 3.0, 2.0, 0.37])) if anc else float(rng.choice([0.5, 3.0, 10.0, 0.37, 1000.0]))
         chk.l3(('scale', c, dmax, anc))
-        eval_case(chk, dadi, enc(dict(common_, kind='scale', key='scale', c=c)))
+        eval_case(chk, dadi, enc(dict(common_, kind='scale', key='scale', c=c, cost=2 * cost * (max(1.0, c) if anc else 1.0))))
         gt = float(rng.choice([25.0, 29.0, 0.5, 1.0])); unit = 'years' if rng.random() < 0.8 else 'centuries'
         chk.l3(('units', unit, gt, dmax, anc))
         eval_case(chk, dadi, enc(dict(common_, kind='units', key='units', unit=unit, generation_time=gt)))
@@ -744,6 +749,7 @@ def l3_export(chk, ctx, rng, n, budget):
     done = 0; tries = 0
     while done < n and tries < 8 * n:
         tries += 1
+        if DEADLINE[0] is not None and time.time() > DEADLINE[0] + 30: chk.stat('stopped:deadline'); break
         ops, d = S.random_program(rng, max_pops=int(rng.choice([2, 3, 4, 5, 5])), p_reorder=0.3)
         pts, dmax = pick_pts(ops)
         cost = prog_cost(ops, pts)
@@ -866,6 +872,7 @@ def run(chk, ctx):
     rng = common.Rng(ctx['seed'], 'C16')
     quick = ctx['tier'] != 'thorough'
     REFINE_BUDGET[0] = 20.0 if quick else 120.0
+    DEADLINE[0] = time.time() + (110.0 if quick else 1300.0)
     chk.rule = ('K: random histories (1-5 contemporaneous demes; splits, branches, admixtures, mergers, pulses, removals, renamings; constant/'
                 'exponential/linear epochs spanning several intervals; asymmetric and symmetric migrations) -> every interval, deme and rate of '
                 '_get_integration_parameters/_sizes_at_time/_make_nu_func vs the generated formulas; recording stubs with marker values for every branch of '
@@ -895,7 +902,7 @@ def run(chk, ctx):
     timed('L3 export', l3_export, chk, ctx, rng, 30 if quick else 400, 1.0 if quick else 4.0)
 
 def replay(chk, ctx, data):
-    REFINE_BUDGET[0] = 600.0
+    REFINE_BUDGET[0] = 600.0; DEADLINE[0] = None
     inp = data['input']
     chk.l3(('replay', inp.get('kind')))
     if inp.get('kind') == 'from_demes':
